@@ -277,10 +277,10 @@ fn finish(rng: &mut Rng, mut st: Start) -> Option<Start> {
     Some(st)
 }
 
-pub const N_SCEN: usize = 16;
+pub const N_SCEN: usize = 19;
 pub const SCEN_NAMES: [&str; N_SCEN] = [
     "ep_rank_exposure",
-    "ep_diag_exposure",
+    "ep_after_interposing_push",
     "ep_in_check",
     "ep_capturer_pinned",
     "castle_matrix",
@@ -295,6 +295,9 @@ pub const SCEN_NAMES: [&str; N_SCEN] = [
     "ep_two_capturers",
     "castle_through_pieces",
     "promo_discovered",
+    "castle_with_ep_pending",
+    "stalemate_factory",
+    "only_move_is_ep",
 ];
 
 /// Try to produce an instance of scenario `id`; None if this draw did not validate.
@@ -367,37 +370,44 @@ pub fn scenario(rng: &mut Rng, id: usize) -> Option<Start> {
             finish(rng, Start { pos: p, prelude: vec![RMove::new(sqm(bf, 6), sqm(bf, 4), 0)], tag })
         }
         1 => {
-            // e.p. diagonal exposure: black B/Q behind the pushed pawn on a diagonal towards the white king
-            let bf = rng.range(1, 6) as i8; // pushed pawn file, lands on (bf,4)
-            let d = *rng.pick(&DIAG);
-            let ksq = mk(bf - d.0 * rng.range(1, 3) as i8, 4 - d.1 * rng.range(1, 3) as i8);
-            let ssq = mk(bf + d.0 * rng.range(1, 3) as i8, 4 + d.1 * rng.range(1, 3) as i8);
-            let (ksq, ssq) = match (ksq, ssq) {
-                (Some(k), Some(s)) => (k, s),
-                _ => return None,
-            };
-            // king and slider must really be on the diagonal through (bf,4)
-            let (kf, kr) = fr(ksq);
-            let (sf, sr) = fr(ssq);
-            if (kf - bf).abs() != (kr - 4).abs() || (sf - bf).abs() != (sr - 4).abs() {
+            // the double push interposes against a check (the pusher was in check); the opponent may then
+            // capture the interposed pawn e.p.  (A capture that would expose the *capturer's* king along a
+            // diagonal through the captured pawn cannot arise: the capturer would have been in check before.)
+            let f = rng.range(0, 7) as i8; // white pawn f2 -> f4
+            let d = *rng.pick(&KG);
+            if d.0 == 0 {
+                return None; // along the file the pawn cannot interpose by a double step from behind
+            }
+            let n1 = rng.range(1, 3) as i8;
+            let n2 = rng.range(1, 3) as i8;
+            let ksq = mk(f - d.0 * n1, 3 - d.1 * n1)?;
+            let ssq = mk(f + d.0 * n2, 3 + d.1 * n2)?;
+            let bf = f + *rng.pick(&[-1i8, 1]);
+            if bf < 0 || bf > 7 {
                 return None;
             }
-            let wf = bf + *rng.pick(&[-1i8, 1]);
-            if ksq == sqm(wf, 4) || ssq == sqm(wf, 4) || ssq == sqm(bf, 6) || ksq == sqm(bf, 6) {
-                return None;
+            let pawn_from = sqm(f, 1);
+            let pawn_mid = sqm(f, 2);
+            let pawn_to = sqm(f, 3);
+            let bp = sqm(bf, 3);
+            for s in [ksq, ssq].iter() {
+                if *s == pawn_from || *s == pawn_mid || *s == pawn_to || *s == bp {
+                    return None;
+                }
             }
+            let diag = d.0 != 0 && d.1 != 0;
             p.sq[ksq as usize] = pc(K, WHITE);
-            p.sq[ssq as usize] = pc(*rng.pick(&[B, Q]), BLACK);
-            p.sq[sqm(wf, 4) as usize] = pc(P, WHITE);
-            p.sq[sqm(bf, 6) as usize] = pc(P, BLACK);
-            let mut reserved = ray_set(ksq, d) | ray_set(ssq, (-d.0, -d.1)) | bit(sqm(bf, 5)) | bit(sqm(bf, 4)) | bit(sqm(wf, 5));
+            p.sq[ssq as usize] = pc(if diag { *rng.pick(&[B, Q]) } else { *rng.pick(&[R, Q]) }, BLACK);
+            p.sq[pawn_from as usize] = pc(P, WHITE);
+            p.sq[bp as usize] = pc(P, BLACK);
+            let mut reserved = ray_set(ksq, d) | bit(ksq) | bit(pawn_from) | bit(pawn_mid) | bit(pawn_to) | bit(bp) | bit(sqm(bf, 2));
             if !place_king_somewhere(rng, &mut p, BLACK, reserved) {
                 return None;
             }
             reserved |= bit(p.king_sq(BLACK).unwrap());
-            add_noise(rng, &mut p, reserved, 8);
-            p.stm = BLACK;
-            finish(rng, Start { pos: p, prelude: vec![RMove::new(sqm(bf, 6), sqm(bf, 4), 0)], tag })
+            add_noise(rng, &mut p, reserved, 6);
+            p.stm = WHITE;
+            finish(rng, Start { pos: p, prelude: vec![RMove::new(pawn_from, pawn_to, 0)], tag })
         }
         2 => {
             // e.p. while in check: the pushed pawn gives check / discovers a slider check / both
@@ -418,6 +428,14 @@ pub fn scenario(rng: &mut Rng, id: usize) -> Option<Start> {
                     return None;
                 }
                 p.sq[k as usize] = pc(K, WHITE);
+                if kf == wf && variant == 0 && rng.chance(1, 2) {
+                    // the capturing pawn is pinned on its file: taking the checking pawn is illegal
+                    let s = sqm(wf, rng.range(5, 7) as i8);
+                    if p.sq[s as usize] == 0 && s != sqm(bf, 6) {
+                        p.sq[s as usize] = pc(*rng.pick(&[R, Q]), BLACK);
+                        reserved |= ray_set(k, (0, 1));
+                    }
+                }
             }
             if variant == 1 || variant == 2 {
                 // a black slider whose line to the white king passes through (bf,6)
@@ -927,8 +945,226 @@ pub fn scenario(rng: &mut Rng, id: usize) -> Option<Start> {
             p.stm = BLACK;
             finish(rng, Start { pos: p, prelude: vec![RMove::new(sqm(bf, 6), sqm(bf, 4), 0)], tag })
         }
+        16 => {
+            // castling available while an e.p. capture is pending (the opponent just double-pushed beside a pawn)
+            p.sq[4] = pc(K, WHITE);
+            let wings = rng.range(1, 3);
+            if wings & 1 != 0 {
+                p.sq[7] = pc(R, WHITE);
+                p.castle |= WK;
+            }
+            if wings & 2 != 0 {
+                p.sq[0] = pc(R, WHITE);
+                p.castle |= WQ;
+            }
+            let bf = rng.range(0, 7) as i8;
+            let wf = bf + *rng.pick(&[-1i8, 1]);
+            if wf < 0 || wf > 7 {
+                return None;
+            }
+            p.sq[sqm(bf, 6) as usize] = pc(P, BLACK);
+            p.sq[sqm(wf, 4) as usize] = pc(P, WHITE);
+            let mut reserved = 0xffu64 | bit(sqm(bf, 6)) | bit(sqm(bf, 5)) | bit(sqm(bf, 4)) | bit(sqm(wf, 5));
+            if rng.chance(1, 2) {
+                p.sq[60] = pc(K, BLACK);
+                if rng.chance(1, 2) {
+                    p.sq[63] = pc(R, BLACK);
+                    p.castle |= BK;
+                }
+                if rng.chance(1, 2) {
+                    p.sq[56] = pc(R, BLACK);
+                    p.castle |= BQ;
+                }
+                reserved |= 0xffu64 << 56;
+            } else if !place_king_somewhere(rng, &mut p, BLACK, reserved | 0xff00) {
+                return None;
+            }
+            reserved |= bit(p.king_sq(BLACK)?);
+            add_noise(rng, &mut p, reserved, 6);
+            p.stm = BLACK;
+            finish(rng, Start { pos: p, prelude: vec![RMove::new(sqm(bf, 6), sqm(bf, 4), 0)], tag })
+        }
+        17 => {
+            // stalemates with many men on the board (hemmed-in pieces, also a queen)
+            let (q, _) = hemmed_in(rng, false)?;
+            finish(rng, Start::plain(q, tag))
+        }
+        18 => {
+            // the only legal move is an en-passant capture: a hemmed-in side with one blocked pawn on its
+            // fifth rank; the opponent double-pushes beside it
+            let (mut q, pf) = hemmed_in(rng, true)?;
+            let f = pf?;
+            let g = f + *rng.pick(&[-1i8, 1]);
+            if g < 0 || g > 7 {
+                return None;
+            }
+            if q.sq[sqm(g, 6) as usize] != 0 || q.sq[sqm(g, 5) as usize] != 0 || q.sq[sqm(g, 4) as usize] != 0 {
+                return None;
+            }
+            q.sq[sqm(g, 6) as usize] = pc(P, BLACK);
+            q.stm = BLACK;
+            let push = RMove::new(sqm(g, 6), sqm(g, 4), 0);
+            if !q.valid() || !q.is_legal(push) {
+                return None;
+            }
+            let after = q.make(push);
+            let lm = after.legal_moves();
+            if !(lm.len() == 1 && after.is_ep_capture(lm[0])) {
+                return None;
+            }
+            finish(rng, Start { pos: q, prelude: vec![push], tag })
+        }
         _ => None,
     }
+}
+
+/// Search-based workload: a position in which White (to move) is stalemated although it still owns
+/// several men (hemmed-in pieces, blocked pawns).  `want_pawn_file`: additionally White owns a pawn on
+/// its fifth rank... (used by the only-move-is-e.p. recipe, see there).
+fn hemmed_in(rng: &mut Rng, extra_pawn: bool) -> Option<(RPos, Option<i8>)> {
+    for _ in 0..80 {
+        let mut p = RPos::empty();
+        // White's cluster lives in a 3x3 or 4x3 block in the a1 corner (mirrored later by `finish`)
+        let w = rng.range(2, 4) as i8;
+        let h = rng.range(2, 3) as i8;
+        let mut cells: Vec<Sq> = vec![];
+        for f in 0..w {
+            for r in 0..h {
+                cells.push(sqm(f, r));
+            }
+        }
+        rng.shuffle(&mut cells);
+        let nmen = rng.range(2, cells.len().min(7));
+        let mut have_q = false;
+        for (i, s) in cells.iter().take(nmen).enumerate() {
+            let k = if i == 0 {
+                K
+            } else {
+                let c = *rng.pick(&[P, P, P, N, B, R, Q, N]);
+                if c == Q {
+                    if have_q {
+                        P
+                    } else {
+                        have_q = true;
+                        Q
+                    }
+                } else {
+                    c
+                }
+            };
+            let k = if k == P && s >> 3 == 0 { N } else { k };
+            p.sq[*s as usize] = pc(k, WHITE);
+        }
+        // black pawns / men directly in front of the white pawns
+        for s in 0..64u8 {
+            if p.sq[s as usize] == pc(P, WHITE) {
+                let t = s + 8;
+                if p.sq[t as usize] == 0 {
+                    p.sq[t as usize] = pc(*rng.pick(&[P, P, N, B]), BLACK);
+                }
+            }
+        }
+        let mut pawn_file = None;
+        if extra_pawn {
+            // a white pawn on its fifth rank, blocked by a black man, away from the cluster
+            let f = rng.range((w as usize + 1).min(6), 6) as i8;
+            if p.sq[sqm(f, 4) as usize] != 0 || p.sq[sqm(f, 5) as usize] != 0 {
+                continue;
+            }
+            p.sq[sqm(f, 4) as usize] = pc(P, WHITE);
+            p.sq[sqm(f, 5) as usize] = pc(*rng.pick(&[P, N, B]), BLACK);
+            pawn_file = Some(f);
+        }
+        // black pieces taking away the remaining squares
+        let nb = rng.range(1, 4);
+        for _ in 0..nb {
+            let s = sqm(rng.below((w + 2).min(8) as usize) as i8, rng.range(1, (h + 2).min(7) as usize) as i8);
+            if p.sq[s as usize] == 0 {
+                p.sq[s as usize] = pc(*rng.pick(&[Q, R, N, B, P]), BLACK);
+                if kind(p.sq[s as usize]) == P && (s >> 3 == 0 || s >> 3 == 7) {
+                    p.sq[s as usize] = pc(N, BLACK);
+                }
+            }
+        }
+        // black king somewhere far
+        let mut placed = false;
+        for _ in 0..20 {
+            let s = sqm(rng.range(4, 7) as i8, rng.range(3, 7) as i8);
+            if p.sq[s as usize] == 0 {
+                p.sq[s as usize] = pc(K, BLACK);
+                placed = true;
+                break;
+            }
+        }
+        if !placed {
+            continue;
+        }
+        p.stm = WHITE;
+        if !p.valid() || p.in_check(WHITE) {
+            continue;
+        }
+        if extra_pawn {
+            // apart from possible moves of nothing: everything must be immobile
+            if p.has_legal_move() {
+                continue;
+            }
+            return Some((p, pawn_file));
+        }
+        if !p.has_legal_move() {
+            return Some((p, None));
+        }
+    }
+    None
+}
+
+/// A synthesised position whose e.p. state is *set up directly* (FEN/builder) instead of being reached
+/// by playing the push through the library: a pawn of the side that "just moved" on its fourth rank
+/// with the two squares behind it empty, and a valid position before that push.
+pub fn synth_ep_invented(rng: &mut Rng) -> Option<Start> {
+    for _ in 0..40 {
+        let d = *rng.pick(&[Density::Sparse, Density::Medium, Density::Medium, Density::Crowded]);
+        let mut p = synth(rng, d);
+        let mover = p.stm ^ 1;
+        let (r4, r3, r2) = if mover == WHITE { (3i8, 2i8, 1i8) } else { (4i8, 5i8, 6i8) };
+        let mut cands = vec![];
+        for f in 0..8i8 {
+            if p.sq[sqm(f, r4) as usize] == pc(P, mover) && p.sq[sqm(f, r3) as usize] == 0 && p.sq[sqm(f, r2) as usize] == 0 {
+                cands.push(f);
+            }
+        }
+        if cands.is_empty() {
+            // make one: put a pawn there if the squares allow it
+            let f = rng.below(8) as i8;
+            if kind(p.sq[sqm(f, r4) as usize]) == K || kind(p.sq[sqm(f, r3) as usize]) == K || kind(p.sq[sqm(f, r2) as usize]) == K || p.count(pc(P, mover)) >= 8 {
+                continue;
+            }
+            p.sq[sqm(f, r4) as usize] = pc(P, mover);
+            p.sq[sqm(f, r3) as usize] = 0;
+            p.sq[sqm(f, r2) as usize] = 0;
+            // and often an enemy pawn beside it
+            if rng.chance(2, 3) {
+                if let Some(t) = mk(f + *rng.pick(&[-1i8, 1]), r4) {
+                    if kind(p.sq[t as usize]) != K && p.count(pc(P, mover ^ 1)) < 8 {
+                        p.sq[t as usize] = pc(P, mover ^ 1);
+                    }
+                }
+            }
+            fix_rights(&mut p);
+            cands.push(f);
+        }
+        let f = *rng.pick(&cands);
+        p.ep = Some(sqm(f, r3));
+        // "directly after a double pawn push": the position before that push must itself be valid
+        let mut pred = p.clone();
+        pred.ep = None;
+        pred.stm = mover;
+        pred.sq[sqm(f, r4) as usize] = 0;
+        pred.sq[sqm(f, r2) as usize] = pc(P, mover);
+        if p.valid() && pred.valid() {
+            return Some(Start::plain(p, "synth_ep_invented"));
+        }
+    }
+    None
 }
 
 /// Draw a scenario instance (retrying), round-robin over recipes by `idx`.
